@@ -257,6 +257,24 @@ def run(F, R, tier):
         R.ob("C03-c", "visit handles every response kind explicitly", covered >= allv and not catch_all,
              "visit's match has a catch-all or misses %s" % sorted(allv - covered), where(m))
 
+    # every pending npm specifier gets an entry (module stub or error) on every path
+    nr = F.body("graph::NpmSpecifierResolver::resolve")
+    n_loops = 0
+    for lp in [n for n in nr["_nodes"] if n["k"] == "For"]:
+        binds = pat_bindings(lp["pat"])
+        if not binds or not any(tyc(F, b_, "graph::PendingNpmResolutionItem") for b_ in binds):
+            continue
+        n_loops += 1
+        settle = lambda n: (n.get("k") == "MethodCall" and n["name"] == "insert" and peel(n["recv"]).get("field") == "module_slots") or callee_matches(n, ["NpmSpecifierResolver::add_req_ref_for_item"])
+        bad, _ = must_pass(F, lp["body"], settle, exit_kinds=("fallthrough", "continue", "break", "return"))
+        R.ob("C03-c", "every pending npm specifier is settled (module stub or error entry) on every path", not bad,
+             "a path through an npm resolution loop leaves the item without a module slot: the specifier would be missing from the graph without an error", where(lp))
+    R.floor("C03-c npm item loops", n_loops, 3)
+    fg = F.body("graph::NpmSpecifierResolver::fill_graph")
+    keep = [n for n in fg["_nodes"] if n.get("k") == "MethodCall" and n["name"] in ("or_insert", "or_insert_with")]
+    R.ob("C03-c", "npm results never overwrite an entry the graph already has", len(keep) == 2 and not [n for n in fg["_nodes"] if n.get("k") == "MethodCall" and n["name"] == "insert" and peel(n["recv"]).get("field") in ("module_slots", "redirects")],
+         "fill_graph writes module_slots / redirects other than through entry().or_insert()", fg["file"])
+
     # ---------------- C03-d / C03-e ----------------------------------------
     tl = F.body("try_load")
     reds = [n for n in F.all_nodes() if ctor_of(n) == "graph::PendingInfoResponse::Redirect" and not n["_top"].get("derived")]
